@@ -1181,13 +1181,14 @@ func main() {
 func mainT() {
 	vrt.WorkerMain(append(allCHarnesses(), allWHarnesses()...))
 	run := evid.New("C31", "exploration")
-	run.Rule = "Part 1: explicit-state BFS over all sequences of <= N actions {start/patch/commit (and whole upload) of blob A by two uploaders and of blob B, run a pending write-back task (real executor), backend down/up, advance 90 min (TTI 1h, TTL 2h), cleanup pass (real job body, upload + cache), POST /forcecleanup ttl 0 as owner / ttl 1h as non-owner, restart, closing phase} on a real blobserver.Server + CAStore, per configuration (1 or 2 namespaces with separate backends) x (LRU capacity 1 or unbounded); states deduplicated on disk state + LRU map + tasks + backend + acknowledged set. Oracle after every action: acknowledged blob absent locally => backend of its namespace holds its bytes; closing phase from every state: backend holds every acknowledged blob. distinct = distinct reached states with >= 1 acknowledged upload. Part 2: crash before every mutating FS primitive (and every backend call / task insert) of upload histories, restart on the image, same oracle for the uploads acknowledged before the crash. Part 3 (E1q, testing/synctest bubble): 2 (thorough: also 3) clients upload the SAME blob (same namespace, or two namespaces with separate backends); every HTTP request (start/patch/commit, client protocol of origin/blobclient: a 409 ends the upload as success) runs on its own goroutine against the real Server + CAStore; the write-back manager seam parks every Add (insert in flight) and the explorer chooses when it proceeds and whether it records the task or fails without effect; further actions: one POST /forcecleanup?ttl_hr=0 with the backend up or in an outage (while the blob is cached) and one restart of the origin (while an Add is parked: requests in flight die unanswered, their Add never happens). With 2 clients EVERY order of the enabled requests / parked Adds / forcecleanup / restart with every Add outcome is executed (no deviation bound); with 3 clients (thorough) every order with <= 4 choices that differ from the canonical run-to-completion order. Oracle at every quiescent point: (a) an acknowledged upload has a recorded (namespace, blob) task or its backend holds the blob (otherwise a restart at this point leaves nothing that would ever write it back), (b) acknowledged blob absent locally => backend of its namespace holds it; at the end of every order the closing phase of part 1. distinct (part 3) = outcome classes (how each upload ended, acknowledged set, tasks, backend, cache, overlap/failure flags)."
+	run.Rule = "Part 1: explicit-state BFS over all sequences of <= N actions {start/patch/commit (and whole upload) of blob A by two uploaders and of blob B, run a pending write-back task (real executor), backend down/up, advance 90 min (TTI 1h, TTL 2h), cleanup pass (real job body, upload + cache), POST /forcecleanup ttl 0 as owner / ttl 1h as non-owner, restart, closing phase} on a real blobserver.Server + CAStore, per configuration (1 or 2 namespaces with separate backends) x (LRU capacity 1 or unbounded); states deduplicated on disk state + LRU map + tasks + backend + acknowledged set. Oracle after every action: acknowledged blob absent locally => backend of its namespace holds its bytes; closing phase from every state: backend holds every acknowledged blob. distinct = distinct reached states with >= 1 acknowledged upload. Part 2: crash before every mutating FS primitive (and every backend call / task insert) of upload histories, restart on the image, same oracle for the uploads acknowledged before the crash. Part 3 (E1q, testing/synctest bubble): 2 (thorough: also 3) clients upload the SAME blob (same namespace, or two namespaces with separate backends); every HTTP request (start/patch/commit, client protocol of origin/blobclient: a 409 ends the upload as success) runs on its own goroutine against the real Server + CAStore; the write-back manager seam parks every Add (insert in flight) and the explorer chooses when it proceeds and whether it records the task or fails without effect; further actions: one POST /forcecleanup?ttl_hr=0 with the backend up or in an outage (while the blob is cached) and one restart of the origin (while an Add is parked: requests in flight die unanswered, their Add never happens). With 2 clients EVERY order of the enabled requests / parked Adds / forcecleanup / restart with every Add outcome is executed (no deviation bound); with 3 clients (thorough) every order with <= 4 choices that differ from the canonical run-to-completion order. Oracle at every quiescent point: (a) an acknowledged upload has a recorded (namespace, blob) task or its backend holds the blob (otherwise a restart at this point leaves nothing that would ever write it back), (b) acknowledged blob absent locally => backend of its namespace holds it; at the end of every order the closing phase of part 1. distinct (part 3) = outcome classes (how each upload ended, acknowledged set, tasks, backend, cache, overlap/failure flags). Part 4 (E1q): write-back EXECUTIONS that overlap each other and the deletion paths. Start state: 1 blob (thorough: also 2 blobs) uploaded and acknowledged, its write-back task pending, persist flag set. Every backend Upload is a seam: it parks after the source was read (upload in flight) and the explorer decides when it returns and whether it stored the blob or failed without effect. Actions: a manager worker starts an execution of a pending task (real writeback.Executor.Exec; success removes the task, failure keeps it; one worker holds a task at a time, a later run is the retry; <= 2 runs, thorough <= 3), POST /forcecleanup?ttl_hr=0 on the real Server, whose SyncExec makes <= 2 (thorough <= 3) in-place attempts, each parked before it calls the real Exec (<= 1 forced cleanup, thorough <= 2 one after the other), and one 'advance 3 h + periodic cleanup pass' (real job body). EVERY order of the enabled actions and parked seams (Upload returns, SyncExec attempt proceeds) with every Upload outcome is executed (no deviation bound): a worker's upload in flight while forced cleanup's SyncExec executes the same task, two uploads of one blob in flight, a retry run while forced cleanup's own upload is in flight, cleanup pass with uploads in flight. Oracle at every quiescent point = clauses (a) and (b) of part 3; at the end of every order every execution that was started has returned (nothing is in flight any more, so one that has not never will: its worker never writes anything back again) and the closing phase of part 1 holds. distinct (part 4) = outcome classes (result of every worker run / forced cleanup, tasks, backend, cache, overlap/failure flags)."
 	run.Assume("small-scope: 2 blobs, <= 3 upload slots, single-chunk uploads, write-back delay 0, every namespace has a backend")
 	run.Assume("the persisted-retry manager is a seam: durable task set keyed (namespace, name), explicit task execution by the real writeback.Executor (retry/restart behaviour of the real manager is C30)")
 	run.Assume("acknowledgement = 2xx of the commit or 409 at start/patch/commit (origin/blobclient treats a conflict as success)")
 	run.Assume("parts 1 and 2: sequential histories (no action concurrent with a handler); process-crash model for part 2 (no torn writes)")
 	run.Assume("part 3: one blob, 2-3 clients, scheduling granularity = request boundaries + the Add seam (code between two seams runs atomically; forced cleanup is one atomic step, its Find/SyncExec are not parked); an Add fails only without effect; a restart kills the requests in flight (their goroutines end inside Add) and their clients do not retry; no task is run during the concurrent phase (tasks run in the closing phase and inside forced cleanup's SyncExec)")
 
+	run.Assume("part 4: one namespace, 1-2 blobs, scheduling granularity = action starts + the backend Upload seam + the start of every SyncExec attempt (code between two seams runs atomically); Stat answers at once from the backend contents; an Upload fails only without effect; a task is executed by at most one worker at a time (as the real manager guarantees: pending -> one queue) but any number of forced-cleanup SyncExec attempts may overlap it; SyncExec = <= 2 (thorough <= 3) in-place attempts without the task store being touched (real default: 3); no restart, no LRU pressure and no client request during the overlap phase (parts 1-3)")
 	thorough := run.Thorough()
 	depth := 5
 	budget := 150 * time.Second
@@ -1299,8 +1300,9 @@ func mainT() {
 			run.Sample(map[string]interface{}{"crash_history": c.Name, "primitives": st.Log})
 		}
 	}
+	overlapReport := overlapStart(run, thorough)
 	concurrentPart(run, thorough)
-	overlapPart(run, thorough)
+	overlapReport()
 
 	run.Set("executor_task_finder_wired", finderWired.Load())
 	run.Set("crash_images_retry_acknowledged", retryAcked.Load())
